@@ -453,6 +453,8 @@ def run(ctx, col, tier):
     col.guard(cache_rule, ctx, col)
     col.guard(chain_rule, ctx, col)
     col.guard(chain_by_value, ctx, col)
+    from ..rules import smalllints2 as _s2
+    _s2.run_twice(ctx, col, ('swcgeom.core.population',))
     col.guard(rows_rule, ctx, col)
     col.guard(anchored, ctx, col)
     col.guard(recognisers, ctx, col)
